@@ -229,11 +229,13 @@ def run_shard(spec, tier, seed):
         # item / slice assignment with a structured right-hand side, through both spellings of the field names
         gnames = R.field_names(system)
         snames = B.names_for(system, True, 0)
-        for label, rhs_names in (("geometric", gnames), ("synonym", snames)):
-            if not mom and label == "synonym":
+        for label, rhs_names in (("geometric", gnames), ("synonym", snames), ("geometric-reordered", tuple(reversed(gnames))),
+                                 ("synonym-reordered", tuple(reversed(snames)))):
+            if not mom and label.startswith("synonym"):
                 continue
             rhs = numpy.zeros(2, dtype=[(nm, numpy.float64) for nm in rhs_names])
-            for i, nm in enumerate(rhs_names):
+            for nm in rhs_names:
+                i = gnames.index(B.GENERIC_OF.get(nm, nm))
                 rhs[nm] = [10.0 + i, 20.0 + i]
             target = B.mk_numpy_cls(system, rows, mom)
             expect = numpy.asarray(B.mk_numpy_cls(system, rows, mom)).copy()
